@@ -177,7 +177,7 @@ def clauses(tier):
     return [
         Clause("truncated", check_truncated,
                "one (bank, filter, width) per case: documented recipe applied to get_truncated_response vs get_frequency_response; start bin in [0, width); real banks within the half spectrum; finite. Non-trivial = complex filter whose truncated response wraps, or width < 16, or odd width",
-               _cases, quick=2000, thorough=200000),
+               _cases, quick=2000, thorough=200000, fuzz_runs=2500),
         Clause("half", check_half,
                "one (bank, filter, width) per case: half=True has the documented length and equals the leading bins; real banks Hermitian; analytic tri/Fbank vanish above Nyquist; finite. Non-trivial = complex bank, or width < 16, or odd width",
                _cases, quick=1200, thorough=100000),
